@@ -264,6 +264,30 @@ def run_c08(tier, t0):
             violate(rep, "C08", c, "accepted-but-must-reject", "rejected (feature off)", "compiles")
     mx3 = mx_bind(doc3, "none")
     rep["traces_validated_against_impl"] += check_binding(doc3, res3, mx3, rep)
+    # the runtime subject pool holds only well-formed declarations of the documented grammar (it is what the
+    # runtime explorers run on): every one of them must be accepted, i.e. its expansion must compile
+    binp, errs, tail = vlib.build_rt(tier)
+    nsub = 0
+    import glob
+    for lib in glob.glob(os.path.join(GEN, tier, "rt", "rt*", "src", "lib.rs")):
+        with open(lib) as f:
+            nsub += len(re.findall(r"^pub mod s\d+ \{", f.read(), re.M))
+    rep["evaluations"] += nsub
+    rep["states"] += nsub
+    rep["transitions"] += nsub
+    hist(rep, "rt-pool-subjects-compiled", nsub)
+    if binp is None:
+        found = vlib.rt_build_failure("C08", tier, errs, tail)
+        seen = set()
+        for f in found:
+            if f["in_ename"] or f["subject"] is None or f["subject"] in seen:
+                continue
+            seen.add(f["subject"])
+            decl = vlib.subject_decl_text(f["file"], f["subject"])
+            c = {"id": f["subject"], "text": decl, "class": "rt-pool", "kind": "decl", "expect": "accept"}
+            violate(rep, "C08", c, "rejected-but-must-accept", "well-formed declaration of the runtime pool compiles", "%s %s" % (f["code"], f["message"][:200]), entry="rustc (runtime pool)")
+        if not seen and not any(f["in_ename"] for f in found):
+            raise Machinery("runtime pool does not build and no error can be attributed to a subject: %s" % tail[-1500:])
     # MX: the combinatorial space in-process
     mxrep = run_mx("c08", tier)
     merge(rep, mxrep)
@@ -383,11 +407,24 @@ def run_c15(tier, t0):
     rep = new_report("C15", tier)
     out, doc = gen("C15", tier)
     outs, docs = gen("C15S", tier)
+    outp, docp = gen("C15P", tier)
     mode = "check" if tier == "quick" else "build"
     res, r1 = fixpoint(out, doc, mode)
     ress, r2 = fixpoint(outs, docs, mode)
-    for c, cs in zip(doc["cases"], docs["cases"]):
+    # the same cases in a crate graph that does not link std at all (no_std port of `arbitrary`): with std
+    # anywhere in the graph, std-only inherent methods (f64::floor, mul_add, ...) would resolve even in a
+    # #![no_std] crate
+    resp, r3 = fixpoint(outp, docp, mode)
+    # ... and with cfg(test) on (the expansion contains a #[cfg(test)] module)
+    rest, r4 = fixpoint(out, doc, "test")
+    for c, cs, cp in zip(doc["cases"], docs["cases"], docp["cases"]):
         a, b = res[c["id"]], ress[cs["id"]]
+        for other, what in ((resp[cp["id"]], "std-free crate graph"), (rest[c["id"]], "test profile (cfg(test))")):
+            rep["evaluations"] += 1
+            rep["transitions"] += 1
+            if a["status"] == "accepted" and other["status"] == "rejected":
+                hist(rep, "no_std:rejected-only-in:%s" % what)
+                a = {"status": "rejected", "round": other["round"], "errors": [(e[0], "[%s] %s" % (what, e[1]), e[2]) for e in other["errors"]]}
         rep["evaluations"] += 2
         rep["transitions"] += 2
         rep["states"] += 1
@@ -410,7 +447,8 @@ def run_c15(tier, t0):
         rep["samples"].append({"decl": c["text"][:220], "no_std": res[c["id"]]["status"], "std_twin": ress[c["id"]]["status"]})
     mxrep = run_mx("c15", tier)
     merge(rep, mxrep)
-    rep["rule"] = "CC: every integer/float/other declaration of the bounded grammar x derive sets (each single trait, pairs with FromStr/serde/Arbitrary/Display/TryFrom, the maximal set) x {plain, validators, sanitizer+predicate, custom error, const_fn, default, generics, lifetimes} is compiled in a #![no_std] crate against nutype with default features off (+serde, +arbitrary) and in a std twin; compiles in the twin => must compile in no_std. MX: token scan of every expansion of the no-std shim (and the two pre-1.81 shims) for std paths and alloc-only names outside user tokens. non-trivial = declarations that compile in the std twin"
+    rep["rule"] = "CC: every integer/float/other declaration of the bounded grammar x derive sets (each single trait, pairs with FromStr/serde/Arbitrary/Display/TryFrom, the maximal set) x {plain, validators, sanitizer+predicate, custom error, const_fn, default, generics, lifetimes} is compiled in a #![no_std] crate against nutype with default features off (+serde, +arbitrary) - once with the real `arbitrary` crate, once in a crate graph that links no std at all (no_std port of arbitrary 1.4.2, harness/shims/arbitrary_nostd), once more with cfg(test) on - and in a std twin; compiles in the twin => must compile in all three no_std builds. MX: token scan of every expansion of the no-std shim (and the two pre-1.81 shims) for std paths and alloc-only names outside user tokens. non-trivial = declarations that compile in the std twin"
+    rep["notes"].append("fixpoint rounds: std-free graph %d, test profile %d" % (r3, r4))
     rep["notes"].append("fixpoint rounds: no_std %d, std twin %d; host target (with #![no_std] the name `std` is simply not in scope)" % (r1, r2))
     return vlib.finish("C15", tier, rep, t0, CC_ASSUMPTIONS)
 
